@@ -42,6 +42,14 @@ def scripts(rng, tier):
         key = rb(rng, rng.choice([30, 46])); iv = rb(rng, 14) + b"\0\0"
         ch = chunking(rng, n)
         L.append(f"icm {H(rng.randrange(16))} {' '.join(H(c) for c in ch)} | {key.hex()} {iv.hex()} {hexb(rb(rng, n))}")
+        # the same call not in place, destination pre-filled (0x00, 0xff, random).  Source and destination are misaligned by
+        # amounts that agree modulo 4: that is what the library itself produces (rtp + enc_start / srtp + enc_start of two packet
+        # buffers the API requires to be 32-bit aligned).  With independent misalignments srtp_aes_icm_encrypt, which tests only
+        # the destination pointer before it switches to 32-bit loads, reads the source through a misaligned uint32_t pointer
+        # (UBSan stops the driver; the bytes are right on this machine) — outside what the callers can produce, see DESIGN 12.10
+        smis = rng.randrange(16)
+        a0 = smis | 0x10 | (((smis & 3) | (rng.randrange(4) << 2)) << 5) | (rng.choice([0, 0xff, rng.randrange(256)]) << 9)
+        L.append(f"icm {H(a0)} {' '.join(H(c) for c in chunking(rng, n))} | {key.hex()} {iv.hex()} {hexb(rb(rng, n))}")
     # terminus: start the block counter next to 0xffff
     for ctr, n in ((0xfffd, 16), (0xfffd, 32), (0xfffd, 33), (0xfffe, 16), (0xfffe, 17), (0xffff, 1), (0xfffe, 1), (0xfff0, 300)):
         key = rb(rng, 30); iv = rb(rng, 14) + ctr.to_bytes(2, "big")
